@@ -467,6 +467,11 @@ func listingRule(p *Prog, r *Report, rule string, m mgrSpec) {
 			r.Undecided(rule, "anchor:"+base, "", "method not found")
 			continue
 		}
+		if len(fn.AnonFuncs) == 0 {
+			// no predicate closure: the listing is a plain loop that appends the entries passing one test
+			listingLoop(p, r, rule, m, which, fn, base)
+			continue
+		}
 		if len(fn.AnonFuncs) != 1 {
 			r.Undecided(rule, base, p.Pos(fn.Pos()), fmt.Sprintf("%d predicate closures found, 1 expected", len(fn.AnonFuncs)))
 			continue
@@ -575,4 +580,67 @@ func scanContentOne(p *Prog, r *Report, rule string, m mgrSpec, components []str
 			}
 		}
 	}
+}
+
+// listingLoop: the loop form of a listing — an append of the registry element
+// guarded by exactly the expected equality.
+func listingLoop(p *Prog, r *Report, rule string, m mgrSpec, which string, fn *ssa.Function, base string) {
+	field := FN(m.Type + "." + m.Field)
+	var app *ssa.Call
+	forEachCallOwn(fn, func(site ssa.CallInstruction) {
+		c, ok := site.(*ssa.Call)
+		if !ok || builtinName(&c.Call) != "append" || len(c.Call.Args) != 2 {
+			return
+		}
+		for _, e := range variadicElems(c.Call.Args[1]) {
+			if strings.Contains(Path(e), "."+field+"[]") {
+				app = c
+			}
+		}
+	})
+	if app == nil {
+		r.Undecided(rule, base, p.Pos(fn.Pos()), "neither a predicate closure nor a loop appending registry entries found")
+		return
+	}
+	elem := "recv." + field + "[]"
+	n, ok := 0, false
+	detail := ""
+	for _, g := range Guards(app.Block()) {
+		switch x := g.Cond.(type) {
+		case *ssa.BinOp:
+			if _, isLen := x.Y.(*ssa.Call); isLen && (x.Op == token.LSS || x.Op == token.GTR) {
+				if lc, ok2 := x.Y.(*ssa.Call); ok2 && builtinName(&lc.Call) == "len" {
+					continue // loop bound
+				}
+			}
+			if x.Op != token.EQL && x.Op != token.NEQ {
+				n++
+				continue
+			}
+			n++
+			l, rr := Path(x.X), Path(x.Y)
+			detail = l + " == " + rr
+			if which == m.List && (x.Op == token.EQL) == g.Val {
+				e, o := l, rr
+				if !strings.HasPrefix(e, elem) {
+					e, o = rr, l
+				}
+				ok = e == elem+".ClientFeature.Device().Ski()" && strings.HasSuffix(o, ".Ski()") && strings.HasPrefix(o, "param:"+fn.Params[1].Name())
+			}
+		case *ssa.Call:
+			n++
+			if c := x.Call.StaticCallee(); c != nil && fnPkgPath(c) == "reflect" && c.Name() == "DeepEqual" && which == m.OnFeat && g.Val {
+				l, rr := Path(x.Call.Args[0]), Path(x.Call.Args[1])
+				detail = "DeepEqual(" + l + ", " + rr + ")"
+				want := elem + ".ServerFeature.Address()"
+				other := "param:" + fn.Params[1].Name()
+				ok = (l == want && rr == other) || (rr == want && l == other)
+			}
+		case *ssa.Phi:
+			// expanded
+		default:
+			n++
+		}
+	}
+	r.Check(rule, base, ok && n == 1, p.InstrPos(app), fmt.Sprintf("listing loop appends an entry under %d condition(s): %s", n, detail))
 }
